@@ -91,6 +91,17 @@ def impl(d):
     if k == "rt":
         tx = tx_build(d["tx"])
         back = Transaction.from_raw(tx.to_hex())
+        # parse -> serialise -> parse again is a fixed point, and the parts parse alike through their own entry points
+        again = Transaction.from_raw(back.to_hex())
+        if dump_lib_tx(again) != dump_lib_tx(back) or again.to_hex() != back.to_hex():
+            return "SECOND_ROUNDTRIP_DIFFERS"
+        from bitcoinutils.transactions import TxInput, TxOutput
+        for txin in back.inputs[:3]:
+            one, _ = TxInput.from_raw(txin.to_bytes().hex(), has_segwit=back.has_segwit)
+            if one.to_bytes() != txin.to_bytes(): return "TXINPUT_FROM_RAW_DIFFERS"
+        for txout in back.outputs[:3]:
+            one, _ = TxOutput.from_raw(txout.to_bytes().hex(), has_segwit=back.has_segwit)
+            if one.to_bytes() != txout.to_bytes(): return "TXOUTPUT_FROM_RAW_DIFFERS"
         return dump_lib_tx(back) + "|" + lib_tx_facts(back)
     if k == "ids":
         tx = tx_build(d["tx"])
